@@ -6,6 +6,7 @@ import DtailModel.Lemmas.Wire
 import DtailModel.Lemmas.Fast
 import DtailModel.Lemmas.GenReader
 import DtailModel.Lemmas.GenClient
+set_option autoImplicit false
 namespace Dtail.C01
 open Dtail
 
